@@ -14,7 +14,10 @@ truncation, extension by 1..4 bytes, bit flips, duplicated trailing record), obj
 public constructors (`.pdu` then decoded by the oracle), and the class-level entry point `<Response>.from_pdu(b)` of
 every concrete response class of core/service.py (registry classes: same verdict as the oracle when the oracle's class
 is that class, rejection otherwise; the InputOutputControlByIdentifier convenience subclasses: the generic view when
-the record starts with their control parameter, rejection otherwise; every other class: `pdu == b` whenever accepted).
+the record starts with their control parameter, rejection otherwise; every other class: `pdu == b` whenever accepted);
+registry classes also against the model's own `fromPdu` / `parseStatic` (driver `frm` / `pst`) incl. PDUs of other services.
+Every attribute leaf of every typed object (generic flattening of vars(obj) + sub_function) is compared with `fieldsAt` of
+the received bytes (driver `fat`), which is driven only by the regenerated field table (gen/c02_fields.py).
 
 Verdict rules: `spec_violated=True` when a typed / raw object does not re-serialise to the received bytes, `.pdu`
 raises, or an exposed field differs from the value at its ISO position; `False` (tie broken, statement intact on
@@ -28,7 +31,7 @@ import re
 from common import LEAN, hx, setup_repo_import
 
 ID = "C02"
-GENS = ["c02_registry", "c02_ctor"]
+GENS = ["c02_registry", "c02_ctor", "c02_fields"]
 PROOF = "Gallia.Proofs.C02"
 DRIVER = "c02"
 ORACLE = True
@@ -41,8 +44,15 @@ ASSUMPTIONS = [
     "nothing on the wire and counts as refused); exception classes are not distinguished",
     "constructor side, typed domain: enum parameters (UDSErrorCodes, DTCFormatIdentifier) range over the enum members, dict parameters "
     "over real dicts (no repeated keys), parameters annotated `int` are never None, bytes parameters are bytes",
-    "constructor side: `exposed r = f` for canonical calls (construct_exposes) is not proved in Lean; it is compared on every generated "
-    "canonical call (object's own attributes vs the attributes parse_dynamic exposes for its PDU)",
+    "field table: the rule language of gen/c02_fields.py (int / enum / optint / rest / intLo / intHi / intHiAfterLo / recs / len) is what the "
+    "prober can recognise; a class whose attribute follows none of the rules stops the run (anchor missing) instead of being skipped. "
+    "Attributes = vars(obj) without trigger_request, plus the sub_function property of SubFunctionResponse classes; other computed "
+    "properties (service_id, data) are not in the table",
+    "field table: `sub_function` of the specialised classes returns the class constant SUB_FUNCTION_ID; the table places it at byte 1, "
+    "which the class's own gate makes equal (proved for the model: subGate)",
+    "class-level entry points: Cls.from_pdu / Cls.parse_static are modelled for the registry classes (fromPdu / parseStatic); the "
+    "InputOutputControlByIdentifier convenience subclasses and Raw* classes are compared by the specification check only (pdu == input), "
+    "as before",
     "the range / width checks inside Model/UdsRespCtor.lean `construct` are literals tied to the code by the differential run on both "
     "sides of every bound, not by a regenerated table (regenerated: parameter lists and annotations, convenience-class parameters)",
 ]
@@ -502,6 +512,16 @@ def mutate(rng, b: bytes, widen):
     for k in (1, 2, 4, 5):
         if len(b) >= k + 1:
             out.append(("dup-record", b + b[-k:]))
+    # a field value occurring a second time further back (multi-identifier / multi-record shaped answers): a parser that
+    # starts to split such an answer exposes other fields than the ISO positions of the class
+    if len(b) >= 3:
+        out.append(("dup-field", b + b[1:3] + bytes(rng.randrange(256) for _ in range(rng.randint(1, 3)))))
+        out.append(("dup-field", b + b[1:]))
+    for cut in (4, 5, 7, 8):
+        if len(b) >= cut:
+            out.append(("dup-field", b[:cut] + b[1:3] + b[cut:]))
+            if cut >= 7:
+                out.append(("dup-field", b[:cut] + b[cut - 1:cut] + b[cut:]))
     return out
 
 
@@ -576,6 +596,9 @@ def run(ctx):
         al, sl, k = rng.randint(0, 4), rng.randint(0, 4), rng.randint(0, 10)
         inputs.append(("mut:alfid-vs-length", bytes([0x7D, (sl << 4) | al]) + bytes(rng.randrange(256) for _ in range(k)), None))
         inputs.append(("mut:dddi-length", bytes([0x6C, rng.choice([1, 2, 3, 3, 3, 0x83, 4])]) + bytes(rng.randrange(256) for _ in range(rng.randint(0, 3))), None))
+        did = _u(rng, 16)
+        r1, r2 = (bytes(rng.randrange(256) for _ in range(rng.randint(1, 3))) for _ in range(2))
+        inputs.append(("mut:rdbi-multi", bytes([rng.choice([0x62, 0x62, 0x6F])]) + be(did, 2) + r1 + be(rng.choice([did, did, did ^ 1, _u(rng, 16)]), 2) + r2, None))
         inputs.append(("mut:nrc", bytes([0x7F, rng.randrange(256), rng.randrange(256)]) + bytes(rng.choice([0, 0, 0, 1])), None))
         inputs.append(("mut:dtc-format", bytes([0x59, rng.choice([1, 0x11, 0x12, 0x07]), rng.randrange(256), rng.randrange(8)]) + be(rng.randrange(65536), 2), None))
 
@@ -643,6 +666,9 @@ def run(ctx):
                      {"pdu": hx(sb), "found_as": hx(b)}, impl=siv, model=smv, spec_violated=r[1],
                      site=f"{site}._from_pdu/.pdu")
 
+    # 3b. EVERY attribute of EVERY registered response class against the regenerated field table (`fieldsAt`, Model/UdsRespFields.lean)
+    _fields_check(ctx, rows, inputs, impl, model)
+
     # 4. objects from the public constructors: .pdu, then parsed back
     n_con = ctx.pick(60, 400)
     con = []
@@ -700,6 +726,7 @@ def run(ctx):
             by_first.setdefault(b[0], []).append((b, mv))
     cap = ctx.pick(1500, 12000)
     n_cls = 0
+    ps_neg_reported = set()
     for C in classes:
         name = C.__name__
         neg = issubclass(C, S.NegativeResponseBase)
@@ -710,6 +737,12 @@ def run(ctx):
             pool = by_first.get(first, [])
         if len(pool) > cap:
             pool = rng.sample(pool, cap)
+        if first is not None and name in reg_names:
+            # PDUs of OTHER services / the negative response: a class must refuse what does not belong to it
+            for k in sorted(by_first):
+                if k != first:
+                    typed = [x for x in by_first[k] if x[1].startswith("ok ")]
+                    pool = pool + typed[:6] + by_first[k][:2]
         fam = _family(C)
         param = None
         if name not in reg_names and fam == "InputOutputControlByIdentifierResponse":
@@ -744,6 +777,49 @@ def run(ctx):
             return e if e is not None else impl_cls([b])[0]
 
         found_c = {}
+        if name in reg_names:
+            # the model's own class-level parser (fromPdu, Model/UdsRespFields.lean; from_pdu_agrees_with_dynamic /
+            # from_pdu_wrong_class_rejects are proved about it) must give the expectation derived from decodeResp
+            fl = ctx.lean([f"frm {name} {hx(b)}" for b, _ in pool])
+            for (b, mv), f in zip(pool, fl):
+                f = "reject" if f.startswith("reject") else f
+                if f != expect(b, mv):
+                    ctx.disagree(f"from_pdu:model:{name}", f"model fromPdu {name} differs from the view derived from decodeResp on {hx(b)}",
+                                 {"pdu": hx(b), "class": name}, impl=expect(b, mv), model=f, spec_violated=False, site="Model/UdsRespFields.lean")
+                    break
+            if not neg:
+                # Cls.parse_static: 7F.. goes to NegativeResponse.from_pdu, the rest to Cls.from_pdu (model parseStatic)
+                own = [b for b, _ in pool]
+                ps = own[: ctx.pick(400, 4000)] + [b for b, _ in by_first.get(0x7F, [])[: ctx.pick(150, 1500)]] + [b""]
+                pl = ctx.lean([f"pst {name} {hx(b)}" for b in ps])
+
+                def impl_ps(bs, C=C):
+                    out = []
+                    for b in bs:
+                        try:
+                            out.append(view_obj(C.parse_static(b)))
+                        except Exception:  # noqa: BLE001
+                            out.append("reject")
+                    return out
+
+                found_p = {}
+                for b, iv, m in zip(ps, impl_ps(ps), pl):
+                    ctx.ev()
+                    n_cls += 1
+                    m = "reject" if m.startswith("reject") else m
+                    r = classify(b, iv, m)
+                    if r and (r[0] not in found_p or len(b) < len(found_p[r[0]][0])):
+                        found_p[r[0]] = (b, iv, m, r)
+                ctx.kind(*(["parse_static"] * len(ps)))
+                for cat, (b, iv, m, r) in found_p.items():
+                    if b[:1] == b"\x7f":
+                        # the negative branch is the same code for every class: report it once
+                        if cat in ps_neg_reported:
+                            continue
+                        ps_neg_reported.add(cat)
+                    ctx.disagree(f"parse_static:{name if b[:1] != bytes([0x7F]) else 'negative-branch'}:{cat}", f"{name}.parse_static({hx(b)}): {r[2]}",
+                                 {"pdu": hx(b), "class": name, "entry": "parse_static"}, impl=iv, model=m, spec_violated=r[1],
+                                 site=f"{name}.parse_static")
         for (b, mv), iv in zip(pool, impl_cls([b for b, _ in pool])):
             ctx.ev()
             n_cls += 1
@@ -773,6 +849,165 @@ def run(ctx):
     rng.shuffle(pool)
     pool = sorted(pool[: ctx.pick(250, 1500)], key=len)
     _stored_check(ctx, pool)
+
+# ---------------------------------------------------------------------------------------------------------
+# every attribute of every class against the field table
+
+
+def load_field_table():
+    """class -> {leaf: (how, off, width)} re-read from the regenerated file the proofs are checked against"""
+    txt = (LEAN / "Gallia" / "Gen" / "C02Fields.lean").read_text()
+    tab = {}
+    for m in re.finditer(r'^  \("(\w+)", \[(.*)\]\),?$', txt, flags=re.M):
+        tab[m.group(1)] = {a: (h, int(o), int(w)) for a, h, o, w in re.findall(r'\("([^"]+)", "(\w+)", (\d+), (\d+)\)', m.group(2))}
+    if not tab:
+        raise RuntimeError("generated field table is empty")
+    return tab
+
+
+def _flat(name, v, out, table):
+    import enum
+
+    if v is None:
+        out[name] = "none"
+    elif isinstance(v, bool):
+        out[name] = f"!bool:{v}"
+    elif isinstance(v, (int, enum.IntEnum)):
+        out[name] = str(int(v))
+    elif isinstance(v, (bytes, bytearray)):
+        out[name] = hx(bytes(v))
+    elif isinstance(v, (list, tuple)):
+        out[name + "#"] = str(len(v))
+        for i, x in enumerate(v):
+            _flat(f"{name}[{i}]", x, out, table)
+    elif isinstance(v, dict):
+        if name + "{}" in table:
+            try:
+                out[name + "{}"] = ",".join(f"{int(k)}:{int(x)}" for k, x in v.items()) or "-"
+            except (TypeError, ValueError):
+                out[name + "{}"] = "!non-int-entries"
+        else:
+            out[name + "#"] = str(len(v))
+            for i, (k, x) in enumerate(v.items()):
+                _flat(f"{name}.key[{i}]", k, out, table)
+                _flat(f"{name}.val[{i}]", x, out, table)
+    else:
+        out[name] = f"!{type(v).__name__}"
+
+
+def leaves_of(o, table):
+    """all public attribute leaves of a live response object (generic: no per-class knowledge)"""
+    S = _svc()
+    names = sorted(k for k in vars(o) if not k.startswith("_") and k != "trigger_request")
+    if isinstance(o, S.SubFunctionResponse):
+        names.append("sub_function")
+    out = {}
+    for a in names:
+        try:
+            _flat(a, getattr(o, a), out, table)
+        except Exception as e:  # noqa: BLE001
+            out[a] = f"!{type(e).__name__}"
+    return out
+
+
+def _fields_impl(b, tab):
+    S = _svc()
+    try:
+        o = S.UDSResponse.parse_dynamic(b)
+    except Exception:  # noqa: BLE001
+        return None
+    if isinstance(o, S.RawResponse):
+        return None
+    return type(o).__name__, leaves_of(o, tab.get(type(o).__name__, {}))
+
+
+def _fields_classify(tab, iv, mline):
+    """None, or (category, spec_violated, text); iv = (class, leaves) of the live object, mline = driver `fat` output"""
+    if iv is None or not mline.startswith("ok "):
+        return None   # verdict differences are reported by the main comparison
+    icls, il = iv
+    parts = mline.split(" ")
+    ml = dict(x.split("=", 1) for x in parts[2:])
+    fam = FAM_OF.get(icls, icls)
+    if icls not in tab:
+        return (f"fields:{fam}:class-not-in-table", False, f"{icls} is returned by parse_dynamic but has no row in the field table")
+    if parts[1] != icls:
+        return None
+    # values first (a container that changes its shape shows as a different `a#` / item value), then leaves the object lacks,
+    # then leaves the table does not know (a new attribute: the statement is intact on the input, the table obligation is not)
+    for leaf in sorted(ml):
+        if leaf in il and il[leaf] != ml[leaf]:
+            h, o, w = tab[icls].get(leaf, ("?", 0, 0))
+            where = f"{h} at offset {o}" if h != "len" else f"a container of {o} item(s)"
+            return (f"fields:{fam}:{leaf}", True, f"{icls}.{leaf} = {il[leaf]}, but the bytes ISO places there ({where}) hold {ml[leaf]}")
+    for leaf in sorted(ml):
+        if leaf not in il:
+            return (f"fields:{fam}:attribute-missing:{leaf}", True, f"{icls} does not expose {leaf}; the ISO position holds {ml[leaf]}")
+    for leaf in sorted(il):
+        if leaf not in ml:
+            return (f"fields:{fam}:attribute-not-in-table:{leaf}", False, f"{icls} exposes {leaf}={il[leaf]}, which the field table does not know")
+    return None
+
+
+def _fields_check(ctx, rows, inputs, impl, model):
+    S = _svc()
+    rng = ctx.rng
+    tab = load_field_table()
+    reg = {r[0] for r in rows}
+    if set(tab) != reg:
+        ctx.disagree("fields:table-classes", "the field table and the response registry name different classes",
+                     {"only_table": sorted(set(tab) - reg), "only_registry": sorted(reg - set(tab))}, spec_violated=False, site="gen/c02_fields.py")
+    picked, short3 = [], []
+    for (lab, b, _), iv, mv in zip(inputs, impl, model):
+        if iv.startswith("ok ") and mv.startswith("ok "):
+            (short3 if lab.startswith("short:len3") else picked).append(b)
+    cap = ctx.pick(20000, 400000) * (4 if ctx.widened else 1)
+    if len(short3) > cap:
+        short3 = rng.sample(short3, cap)
+    picked += short3
+    mlines = ctx.lean(["fat " + hx(b) for b in picked])
+    found = {}
+    seen_cls, seen_leaf = set(), set()
+    for b, ml in zip(picked, mlines):
+        ctx.ev()
+        iv = _fields_impl(b, tab)
+        if iv is not None:
+            seen_cls.add(iv[0])
+            seen_leaf.update((iv[0], k) for k in iv[1])
+        r = _fields_classify(tab, iv, ml)
+        if r and (r[0] not in found or len(b) < len(found[r[0]][0])):
+            found[r[0]] = (b, r)
+    ctx.kind(*(["fields-vs-table"] * len(picked)))
+    ctx.traces_validated += len(picked)
+    n_leaf = sum(len(v) for v in tab.values())
+    ctx.notes["field_table"] = {"classes": len(tab), "leaves": n_leaf, "classes_seen": len(seen_cls), "leaves_seen": len(seen_leaf),
+                                "pdus_compared": len(picked)}
+    ctx.exhaustive_parts.append(f"field table: every attribute leaf of every registered response class ({len(tab)} classes, {n_leaf} leaves; "
+                                f"{len(seen_cls)} classes / {len(seen_leaf)} leaves seen on {len(picked)} accepted PDUs)")
+    missing = sorted(reg - seen_cls)
+    if missing:
+        ctx.disagree("fields:class-never-exercised", "no accepted PDU of a registered class was generated", {"classes": missing},
+                     spec_violated=False, site="harness/props/C02.py")
+    for cat, (b, r) in found.items():
+        cur = b
+        for _ in range(64):   # fixed-order minimisation keeping the category: drop from the end, drop inner bytes, lower bytes
+            cands = [cur[:-k] for k in (4, 3, 2, 1) if len(cur) > k]
+            cands += [cur[:i] + cur[i + 1:] for i in range(len(cur) - 1, 0, -1)]
+            cands += [cur[:i] + bytes([v]) + cur[i + 1:] for i in range(1, len(cur)) for v in (0, 1, 0x10, 0x11, cur[i] // 2) if v < cur[i]]
+            cands = list(dict.fromkeys(c for c in cands if c))
+            if not cands:
+                break
+            ms = ctx.lean(["fat " + hx(c) for c in cands])
+            nxt = next((c for c, m in zip(cands, ms) if (_fields_classify(tab, _fields_impl(c, tab), m) or (None,))[0] == cat), None)
+            if nxt is None:
+                break
+            cur = nxt
+        iv = _fields_impl(cur, tab)
+        ml = ctx.lean(["fat " + hx(cur)])[0]
+        rr = _fields_classify(tab, iv, ml) or r
+        ctx.disagree(cat, f"parse_dynamic({hx(cur)}): {rr[2]}", {"pdu": hx(cur), "found_as": hx(b), "fields": True},
+                     impl=("reject" if iv is None else " ".join(["ok", iv[0]] + [f"{k}={v}" for k, v in sorted(iv[1].items())])),
+                     model=ml, spec_violated=rr[1], site=f"{(iv or ('UDSResponse',))[0]}._from_pdu")
 
 
 def _ctor_eval(cls, args, canon):
@@ -988,6 +1223,27 @@ def replay(ctx, case):
     b = bytes.fromhex(c["pdu"]) if c["pdu"] != "-" else b""
     mv = model_batch(ctx, [b])[0][0]
     print("input  :", hx(b))
+    if c.get("fields"):
+        tab = load_field_table()
+        iv = _fields_impl(b, tab)
+        ml = ctx.lean(["fat " + hx(b)])[0]
+        print("impl   :", "reject / raw" if iv is None else " ".join(["ok", iv[0]] + [f"{k}={v}" for k, v in sorted(iv[1].items())]))
+        print("fieldsAt (ISO position slices of the received bytes):", ml)
+        r = _fields_classify(tab, iv, ml)
+        print("verdict:", "agree" if r is None else f"{r[0]} (spec_violated={r[1]}): {r[2]}")
+        return 0 if r is None else 1
+    if c.get("entry") == "parse_static":
+        try:
+            iv = view_obj(getattr(S, c["class"]).parse_static(b))
+        except Exception as e:  # noqa: BLE001
+            iv = "reject"
+            print("raised :", repr(e))
+        m = ctx.lean([f"pst {c['class']} {hx(b)}"])[0]
+        print(f"impl   : {c['class']}.parse_static ->", iv)
+        print("model  :", m)
+        r = classify(b, iv, "reject" if m.startswith("reject") else m)
+        print("verdict:", "agree" if r is None else f"{r[0]} (spec_violated={r[1]}): {r[2]}")
+        return 0 if r is None else 1
     if "class" in c:
         try:
             iv = view_obj(getattr(S, c["class"]).from_pdu(b))
@@ -1025,11 +1281,27 @@ MANIFEST = {
                    "control parameters are regenerated from the live classes and proved equal to the model's. Tied by generated "
                    "constructor calls on the live classes (valid, both sides of every range / width bound, negative, empty and "
                    "wrong-length payloads, multi-identifier and multi-record forms): accepted / refused, PDU bytes, the attributes "
-                   "gallia's own parser exposes for that PDU, and the object's own attributes."),
+                   "gallia's own parser exposes for that PDU, and the object's own attributes. construct_exposes: for every class and every "
+                   "accepted canonical call the constructed object exposes exactly the arguments (all 21 constructor forms), "
+                   "construct_canon_injective. "
+                   "Field table (Model/UdsRespFields.lean): ONE table class -> [(attribute leaf, rule, offset, width)] for all 36 registry "
+                   "classes / 98 attribute leaves, regenerated on every run by probing the live classes with marker PDUs (distinct non-zero "
+                   "bytes, several lengths and format bytes) plus an AST cross-check of the names assigned in __init__, and proved equal "
+                   "to the model's layoutOf (fieldTable_agrees); fieldsAt : class -> bytes -> valuation is driven by the table only; "
+                   "every_field_at_its_position: for every class and every byte string decodeResp accepts as that class, all attribute "
+                   "leaves of the decoded object are fieldsAt of the received bytes (per-family lemmas for the ReadDTCInformation record "
+                   "layouts, ALFID / length-format nibbles, optional identifiers). Tie: every attribute leaf of the live object "
+                   "(generic flattening, no per-class printer) against the driver's fieldsAt on every accepted generated PDU; every "
+                   "class and every leaf of the table must be seen. Class-level entry points (fromPduE / parseStaticE): "
+                   "from_pdu_agrees_with_dynamic, from_pdu_accepted_by_dynamic / dynamic_accepted_by_from_pdu (same object both ways), "
+                   "from_pdu_wrong_class_rejects, from_pdu_raw_rejects, neg_from_pdu_is_dynamic, parse_static_neg_is_dynamic, "
+                   "parse_static_agrees_with_dynamic; tied by Cls.from_pdu on own-service and foreign-service PDUs and Cls.parse_static "
+                   "(own service, negative responses, empty) of every registry class against the driver's fromPdu / parseStatic."),
     "level_note": ("Trusted: Lean kernel (axioms propext, Quot.sound, Classical.choice), the registry translator, the "
                    "harness; struct / int.to_bytes contracts. Exception classes are not distinguished (any exception = "
-                   "rejected). Constructor side: enum / dict / int-not-None typed domain; `exposed r = f` is compared, not proved; the "
-                   "range literals of `construct` are tied differentially."),
-    "technique": "Lean 4 proof (case analysis over parser families, big-endian lemmas) + regenerated registry tables + differential correspondence against the real parser",
+                   "rejected). Constructor side: enum / dict / int-not-None typed domain; the range literals of `construct` are tied "
+                   "differentially. Field table: the prober (gen/c02_fields.py) and its rule language are trusted to describe what "
+                   "they probed; computed properties other than sub_function are outside the table."),
+    "technique": "Lean 4 proof (case analysis over parser families, big-endian lemmas) + regenerated registry / constructor / field-position tables (probed from the live classes) + differential correspondence against the real parser",
     "design_ref": "DESIGN.md section 7, C02",
 }
